@@ -642,7 +642,7 @@ private def msl_canLendEx (s : MapSlab (MElemF (MElems 0)) Unit Unit) (w : UInt3
 
 /-- the model's environment with a storage that holds the slabs `heap` -/
 private def msl_envT (heap : List (MTree 0 1)) : Env (MElemF (MElems 0)) Unit Unit Unit Ctx GE :=
-  { envM (MDataSlab.eops 0) 100 1 with
+  { envMap (MDataSlab.eops 0) 100 1 with
     SlabStorage_Retrieve := fun c id =>
       match heap.find? (fun t => (MTree.hdr 1 t).id == id) with
       | some t => (cTree 1 t, true, none, c)
